@@ -71,6 +71,7 @@ class PooledCycleResource(Entity):
         self._available = pool_size
         self._active = 0
         self._queue: deque[Event] = deque()
+        self._handed_over: set[Event] = set()  # dequeued items whose unit is already reserved
         self._completed = 0
         self._rejected = 0
 
@@ -118,6 +119,11 @@ class PooledCycleResource(Entity):
         )
 
     def handle_event(self, event: Event) -> Generator[float, None, list[Event]] | list[Event]:
+        if event in self._handed_over:
+            # Dequeued by a finishing cycle: its unit was reserved at that moment
+            self._handed_over.discard(event)
+            return self._start_cycle(event, reserved=True)
+
         if self._available > 0:
             return self._start_cycle(event)
 
@@ -140,8 +146,11 @@ class PooledCycleResource(Entity):
         )
         return []
 
-    def _start_cycle(self, event: Event) -> Generator[float, None, list[Event]]:
-        self._available -= 1
+    def _start_cycle(
+        self, event: Event, reserved: bool = False
+    ) -> Generator[float, None, list[Event]]:
+        if not reserved:
+            self._available -= 1
         self._active += 1
 
         try:
@@ -166,14 +175,17 @@ class PooledCycleResource(Entity):
         # Try to dequeue next waiting item
         if self._queue and self._available > 0:
             next_event = self._queue.popleft()
-            # Schedule dequeued item for immediate processing
-            results.append(
-                Event(
-                    time=self.now,
-                    event_type=next_event.event_type,
-                    target=self,
-                    context=next_event.context,
-                )
+            # Schedule dequeued item for immediate processing. The freed unit is
+            # reserved for it so that an arrival at this same instant cannot take
+            # the unit and send the item to the back of the queue.
+            self._available -= 1
+            handover = Event(
+                time=self.now,
+                event_type=next_event.event_type,
+                target=self,
+                context=next_event.context,
             )
+            self._handed_over.add(handover)
+            results.append(handover)
 
         return results
